@@ -118,6 +118,15 @@ pub fn h_c08_builtins_and_parse() {
         }
         Err(_) => sym::check("well-formed-document-accepted", false),
     }
+    // a document that rebinds the xml prefix (xot accepts it): names written with it resolve like
+    // any other prefixed name, for elements and attributes alike
+    if let Ok(doc) = xot.parse("<xml:e xmlns:xml=\"urn:other\" xml:b=\"1\"/>") {
+        let el = xot.document_element(doc).unwrap();
+        let other = xot.add_namespace("urn:other");
+        sym::check("rebound-xml-prefix-element-name", xot.node_name(el) == Some(xot.add_name_ns("e", other)));
+        let b_other = xot.add_name_ns("b", other);
+        sym::check("rebound-xml-prefix-attribute-name", xot.attributes(el).contains_key(b_other) && xot.attributes(el).len() == 1);
+    }
 }
 
 /// html5() registers several hundred names: earlier ids keep their meaning and the
